@@ -26,8 +26,8 @@ def _arg():
 def _strategy(tier):
     del tier
     return st.one_of(
-        st.fixed_dictionaries({"cls": st.just("AttrFirst"), "tag": st.sampled_from(["", "a", "abc"]), "args": st.lists(_arg(), min_size=2, max_size=2)}),
-        st.fixed_dictionaries({"cls": st.just("AttrBetween"), "functor": st.sampled_from(["half", "square", "sin"]),
+        st.fixed_dictionaries({"cls": st.just("AttrFirst"), "tag": st.sampled_from(["", "a", "abc", ["a", "b"], []]), "args": st.lists(_arg(), min_size=2, max_size=2)}),
+        st.fixed_dictionaries({"cls": st.just("AttrBetween"), "functor": st.sampled_from(["half", "square", "sin", "scale3", "scale5"]),
                                "args": st.lists(_arg(), min_size=1, max_size=2)}),
         st.fixed_dictionaries({"cls": st.just("DampedPhaseSpaceFactor"), "name": st.sampled_from([None, "N", r"\rho_d"]),
                                "args": st.lists(_arg(), min_size=3, max_size=4)}),
@@ -98,6 +98,8 @@ def fingerprint(obj, extra) -> dict:
 
 def _run(desc):
     labels = ["family:custom", f"class:{desc['cls']}"]
+    if isinstance(desc.get("tag"), list) or str(desc.get("functor", "")).startswith("scale"):
+        labels.append("unhashable_non_sympy_attribute")
     e = under_test("construct", build, desc)
     want = fingerprint(e, None)
     for how, fn in (("pickle", lambda: pickle.loads(pickle.dumps(e, desc["protocol"]))), ("copy", lambda: copy.copy(e)),  # noqa: S301
